@@ -301,6 +301,8 @@ class PoolRun:
 
 
 def run_sequence(sh, base, seq, lenient=False):
+    from .. import instrument
+    instrument.CALLS = 0          # no event is dispatched here: the per-event call budget is per sequence
     case = {'engine': 'pools', 'base': base, 'lenient': lenient, 'ops': [list(o) for o in seq]}
     pr = PoolRun(sh, case)
     for op in BASES[base]:
